@@ -349,8 +349,14 @@ func (x *Exec) evalIndex(env *Env, e *Expr) (Val, error) {
 			cur = Select(SelField(cur, 1), idx[0])
 			idx = idx[1:]
 		case cur.Sort.Kind == KArray:
-			cur = Select(cur, idx[0])
-			idx = idx[1:]
+			ks := cur.Sort.Key
+			if ks.Kind == KData && ks != idx[0].Sort && len(idx) >= len(ks.Fields) {
+				cur = Select(cur, Con(ks, idx[:len(ks.Fields)]...))
+				idx = idx[len(ks.Fields):]
+			} else {
+				cur = Select(cur, idx[0])
+				idx = idx[1:]
+			}
 		default:
 			return nil, fmt.Errorf("index into sort %s", cur.Sort)
 		}
@@ -665,6 +671,32 @@ func (x *Exec) evalCall(env *Env, e *Expr) (Val, error) {
 			return nil, fmt.Errorf("anydenom(k)")
 		}
 		return Sym("any_denom_"+e.Args[0].Num.String(), SStr), nil
+	case "nftkey":
+		if err := need(2); err != nil {
+			return nil, err
+		}
+		return nftKey(args[0], args[1]), nil
+	case "anyval": // anyval("SortName", ref): the value packed in a protobuf Any
+		if len(e.Args) != 2 || e.Args[0].Kind != "str" {
+			return nil, fmt.Errorf("anyval(\"Sort\", ref)")
+		}
+		ds, ok := dataSorts[e.Args[0].Str]
+		if !ok {
+			if parts := strings.SplitN(e.Args[0].Str, ".", 2); len(parts) == 2 {
+				if gt := x.prog.lookupType(parts[0], parts[1]); gt != nil {
+					ds = SortOf(gt)
+					ok = ds != nil
+				}
+			}
+		}
+		if !ok {
+			return nil, fmt.Errorf("anyval: unknown sort %s", e.Args[0].Str)
+		}
+		r, err := argT(1)
+		if err != nil {
+			return nil, err
+		}
+		return UF("any_val<"+ds.Name+">", ds, r), nil
 	case "isempty":
 		if err := need(1); err != nil {
 			return nil, err
